@@ -142,6 +142,38 @@ func TestVerifC09(t *testing.T) {
 					}
 				}
 			}
+			// the comment sections of the posts shown inside the listed activities (this is how id-less embedded notes are reached)
+			kidsV := g.Children(v)
+			for i, it := range gotItems {
+				act, ok := it.(*pub.Activity)
+				if !ok || i >= len(kidsV) || kidsV[i].Kind != "activity" || kidsV[i].Target.Kind != "post" {
+					continue
+				}
+				wantSub := wk.VKeys(g.Children(kidsV[i].Target))
+				if len(wantSub) == 0 {
+					continue
+				}
+				var subItems []pub.Tangible
+				if c.Guard("listing:", d, func() { subItems, _ = wk.HarvestAll(act.Children(), []int{2, 3}, 40) }) {
+					return
+				}
+				gotSub := wk.Keys(subItems)
+				for k := range wantSub {
+					if k >= len(gotSub) {
+						fail("nested:entries-missing", "the comment section of entry %d lists %v, expected %v", i, gotSub, wantSub)
+						return
+					}
+					if wantSub[k] == "FAIL" && gotSub[k] != "FAIL" {
+						fail("nested:impostor-shown", "under entry %d (%s) comment %d is shown as %s, but it does not belong there; expected %v, got %v", i, got[i], k, gotSub[k], wantSub, gotSub)
+						return
+					}
+					if wantSub[k] != "FAIL" && gotSub[k] != "FAIL" && gotSub[k] != wantSub[k] {
+						fail("nested:wrong-item", "under entry %d comment %d is %s, expected %s", i, k, gotSub[k], wantSub[k])
+						return
+					}
+				}
+				c.Count("nested_comment_sections_checked", 1)
+			}
 			c.Nontrivial(owner.ID + "|" + strings.Join(want, ","))
 			if n%40 == 1 && len(want) > 2 {
 				c.Sample(map[string]any{"owner": owner.ID, "expected": want, "shown": got})
